@@ -752,7 +752,7 @@ func runC20(c *Ctx) {
 // sends the other sign on to a later piece, which then decides an order the earlier piece had already decided
 // the other way.
 func ruleCmpChain(c *Ctx) {
-	c.rule("R-CMP-CHAIN", 1, "in CompareNatural's scope a comparison result returned under a test of itself is returned for both signs (c != 0)")
+	c.rule("R-CMP-CHAIN", 0, "in CompareNatural's scope a comparison result returned under a test of itself is returned for both signs (c != 0)")
 	fn := c.P.Func("mstr", "", "CompareNatural")
 	if fn == nil {
 		return
